@@ -5,7 +5,11 @@
 //! the rest of the byte stream begins. Used when Sōzu sits between two
 //! PROXY-aware peers and must preserve the original client identity.
 
-use std::{cell::RefCell, io::Write, rc::Rc};
+use std::{
+    cell::RefCell,
+    io::{ErrorKind, Write},
+    rc::Rc,
+};
 
 use mio::{Token, net::TcpStream};
 use nom::{Err, Offset};
@@ -235,13 +239,17 @@ impl<Front: SocketHandler> RelayProxyProtocol<Front> {
                                 return SessionResult::Upgrade;
                             }
                         }
-                        Err(e) => {
-                            incr!(names::proxy_protocol::ERRORS);
-                            self.frontend_readiness.reset();
-                            self.backend_readiness.reset();
-                            debug!("{} write error: {}", log_context!(self), e);
-                            break;
-                        }
+                        Err(e) => match e.kind() {
+                            ErrorKind::WouldBlock => {
+                                self.backend_readiness.event.remove(Ready::WRITABLE);
+                                return SessionResult::Continue;
+                            }
+                            e => {
+                                incr!(names::proxy_protocol::ERRORS);
+                                debug!("{} write error: {:?}", log_context!(self), e);
+                                return SessionResult::Close;
+                            }
+                        },
                     }
                 }
             }
